@@ -13,7 +13,7 @@
    returned State objects are read a second time after the last call of the sequence. *)
 From Coq Require Import List Ascii String Bool Arith PrimFloat.
 From Verif Require Import Base.Result Base.Str Base.Sexp Base.PyDict Base.Float
-  Model.Tokenizer Model.Types Model.Domain Model.Exec Spec.Pddl Spec.Grammar Corr.Common Corr.Core Proofs.C03_Defs Proofs.C03_Weak.
+  Model.Tokenizer Model.Types Model.Domain Model.Exec Spec.Pddl Spec.Grammar Corr.Common Corr.Core Proofs.C03_Defs Proofs.C03_Weak Proofs.C03_NoTable.
 Import ListNotations.
 Open Scope string_scope.
 Open Scope list_scope.
@@ -60,6 +60,7 @@ Record world3 := {
   v_nums : list (string * float);
   v_eps : float;
   v_objs : objects;
+  v_noobjs : bool;                  (* the Operator objects were built WITHOUT an object table (problem_objects=None) *)
   v_probes : list probe3;
   v_seqs : list seq3
 }.
@@ -68,13 +69,25 @@ Definition core_world (w : world3) : world :=
   {| w_text := v_text w; w_nums := v_nums w; w_eps := v_eps w; w_objs := v_objs w; w_oof := false;
      w_parsed := Raised; w_probes := [] |}.
 
+(* the table the Operator ranges over: None when it was built without the problem's objects; otherwise the constants, then the
+   problem's objects - also when the problem has NO objects (an empty dict is not None: the constants are still ranged over) *)
+Definition model_objs (w : world3) (d : mdomain) : option objects :=
+  if v_noobjs w then None else Some (quantification_objects d (v_objs w)).
+
 Definition run_model_at (w : world3) (d : mdomain) (action : string) (args : list string) (order uorder : list nat)
            (s : state) (allow : bool) : result state :=
   match dget (d_actions d) action with
   | None => Err EKey
   | Some a => do ga <- ground_action d a args;
-              apply_op d (v_eps w) ga (Some (quantification_objects d (v_objs w))) allow false order uorder s
+              apply_op d (v_eps w) ga (model_objs w d) allow false order uorder s
   end.
+
+(* ----- an Operator built with problem_objects=None.  The library then has nothing to range over: it logs a warning, reads every
+   quantified condition as true and applies no universal effect.  What such a call must return is the PDDL successor of the
+   action WITHOUT its quantified parts: every (forall ...) condition replaced by truth, every forall-when effect dropped
+   (written on the spec's syntax, independent of the model). ----- *)
+(* strip_form / strip_eff / strip_action: Proofs/C03_NoTable.v, where the oracle is tied to the model (no_table_successor) *)
+Definition view_action (w : world3) (A : action) : action := if v_noobjs w then strip_action A else A.
 
 Definition run_model (w : world3) (d : mdomain) (p : probe3) (allow : bool) : result state :=
   run_model_at w d (q_action p) (q_args p) (q_order p) (q_uorder p) (q_state p) allow.
@@ -103,7 +116,8 @@ Definition judge_probe (w : world3) (md : mdomain) (sd : sdomain) (p : probe3) :
   let tt := spec_tt sd in
   let objs := dupdate (sd_consts sd) (v_objs w) in   (* constants + objects: what quantifiers range over *)
   match find_action sd (q_action p), dget (d_actions md) (q_action p) with
-  | Some A, Some a =>
+  | Some A0, Some a =>
+      let A := view_action w A0 in
       let groups := all_groups eps tt objs A (q_args p) (q_state p) in
       let cons := consistent groups in
       let succ_spec := successor eps tt objs A (q_args p) (q_state p) in
@@ -112,7 +126,7 @@ Definition judge_probe (w : world3) (md : mdomain) (sd : sdomain) (p : probe3) :
       let den_ok :=
         match denote_effs a with
         | Some effs =>
-            let A' := spec_action a effs in
+            let A' := view_action w (spec_action a effs) in
             Bool.eqb (consistent (all_groups eps tt objs A' (q_args p) (q_state p))) cons &&
             (negb cons || state_equiv (successor eps tt objs A' (q_args p) (q_state p)) succ_spec)
         | None => false
@@ -200,8 +214,8 @@ End Seq.
 (* two verdicts per sequence: the states as read back at once; the same State objects read back after the last call *)
 Definition judge_seq (w : world3) (md : mdomain) (sd : sdomain) (q : seq3) : list verdict :=
   match find_action sd (sq_action q), dget (d_actions md) (sq_action q) with
-  | Some A, Some _ =>
-      let vs := seq_views w md sd A q (sq_start q) (sq_start q) (sq_steps q) in
+  | Some A0, Some _ =>
+      let vs := seq_views w md sd (view_action w A0) q (sq_start q) (sq_start q) (sq_steps q) in
       [ {| v_agree := forallb sv_agree vs; v_ok := forallb sv_ok vs; v_known := false |};
         {| v_agree := forallb sv_late_agree vs; v_ok := forallb sv_late_ok vs; v_known := false |} ]
   | _, _ =>
@@ -253,6 +267,7 @@ Record xworld := {
   x_nums : list (string * float);
   x_eps : float;
   x_objs : objects;
+  x_noobjs : bool;
   x_atoms : list atom;
   x_fkeys : list atom;
   x_states : list cstate;
@@ -289,7 +304,7 @@ Definition decode_seq (w : xworld) (q : xseq) : seq3 :=
      sq_steps := map (decode_step w) (xq_steps q) |}.
 
 Definition decode_world (w : xworld) : world3 :=
-  {| v_text := x_text w; v_nums := x_nums w; v_eps := x_eps w; v_objs := x_objs w;
+  {| v_text := x_text w; v_nums := x_nums w; v_eps := x_eps w; v_objs := x_objs w; v_noobjs := x_noobjs w;
      v_probes := map (decode_probe w) (x_probes w); v_seqs := map (decode_seq w) (x_seqs w) |}.
 
 Inductive anyworld := WFull (w : world3) | WCompact (w : xworld).
@@ -306,7 +321,8 @@ Definition tag_of (cons exact : bool) : ascii := if cons then "c"%char else if e
 
 Definition tags_probe (w : world3) (sd : sdomain) (p : probe3) : list ascii :=
   match find_action sd (q_action p) with
-  | Some A =>
+  | Some A0 =>
+      let A := view_action w A0 in
       let objs := dupdate (sd_consts sd) (v_objs w) in
       let groups := all_groups (v_eps w) (spec_tt sd) objs A (q_args p) (q_state p) in
       let t := tag_of (consistent groups) (q_obs_order p && inner_determined groups) in
@@ -316,8 +332,8 @@ Definition tags_probe (w : world3) (sd : sdomain) (p : probe3) : list ascii :=
 
 Definition tags_seq (w : world3) (md : mdomain) (sd : sdomain) (q : seq3) : list ascii :=
   match find_action sd (sq_action q) with
-  | Some A =>
-      let vs := seq_views w md sd A q (sq_start q) (sq_start q) (sq_steps q) in
+  | Some A0 =>
+      let vs := seq_views w md sd (view_action w A0) q (sq_start q) (sq_start q) (sq_steps q) in
       let t := if forallb sv_cons vs then "c"%char else "i"%char in [t; t]
   | None => ["?"%char; "?"%char]
   end.
@@ -346,7 +362,7 @@ Definition explain (w : anyworld) :=
       map (fun p =>
              (q_action p, q_args p, q_order p, q_uorder p,
               obs_of_result (run_model v md p false), obs_of_result (run_model v md p true),
-              match find_action sd (q_action p) with
+              match option_map (view_action v) (find_action sd (q_action p)) with
               | Some A => Some (applicable (v_eps v) (spec_tt sd) (dupdate (sd_consts sd) (v_objs v)) A (q_args p) (q_state p),
                                 consistent (all_groups (v_eps v) (spec_tt sd) (dupdate (sd_consts sd) (v_objs v)) A (q_args p) (q_state p)),
                                 successor (v_eps v) (spec_tt sd) (dupdate (sd_consts sd) (v_objs v)) A (q_args p) (q_state p), d40_class A)
@@ -365,7 +381,7 @@ Definition explain_seqs (w : anyworld) :=
   | Ok md, Some sd =>
       map (fun q =>
              (sq_action q, sq_args q, sq_order q, sq_uorder q, sq_start q,
-              match find_action sd (sq_action q) with
+              match option_map (view_action v) (find_action sd (sq_action q)) with
               | Some A => map (fun sv => (sv_model sv, sv_app sv, sv_cons sv, sv_spec sv, (sv_agree sv, sv_ok sv, sv_late_agree sv, sv_late_ok sv)))
                               (seq_views v md sd A q (sq_start q) (sq_start q) (sq_steps q))
               | None => []
